@@ -20,8 +20,11 @@ def rules(ctx):
     S.c06_r5_tracking(ctx)
     S.c06_r6_restore(ctx)
     S.walker_rules(ctx)
+    S.full_range_rules(ctx)
     S.refcount_rules(ctx)
     S.c07_rules(ctx)
     S.c11_rules(ctx)
     S.tracker_state_rules(ctx)
     S.loop_completeness_rules(ctx)
+
+    S.compaction_target_rules(ctx)
